@@ -481,6 +481,19 @@ func (cu *CodeUtils) BuildFuncMap() template.FuncMap {
 			}
 			return prettifyBytesLiteral(fmt.Sprintf("%#v", bs))
 		},
+		// DistinctThrowTypes keeps the first throws field of every Go type: a type switch
+		// must not list the same type twice (`throws (1: X a, 2: X b)`).
+		"DistinctThrowTypes": func(fs []*Field) []*Field {
+			seen := make(map[TypeName]bool, len(fs))
+			ret := make([]*Field, 0, len(fs))
+			for _, f := range fs {
+				if !seen[f.GoTypeName()] {
+					seen[f.GoTypeName()] = true
+					ret = append(ret, f)
+				}
+			}
+			return ret
+		},
 		"ServiceThrows": func(svc *Service) []*Field {
 			fm := make(map[string]*Field)
 			for _, f := range svc.Functions() {
